@@ -26,7 +26,7 @@ type c10 struct{ base }
 func init() {
 	runner.Register(&c10{base{
 		id: "C10", level: "exploration",
-		rule: "seeded search over hostile inputs, each executed inside an isolated batch process with RLIMIT_AS = 8 GiB that announces the input it is about to run (so a dead process identifies it): (a) field-aware mutations of spec-valid files laid out by the reference encoder - every length/offset/size/count/crc/opcode field located by the FileMap (top level and inside uncompressed chunks) set to 0, 1, v-1, v+1, 2^31-1, 2^31, 2^32-1, 2^63, 2^64-9, 2^64-1; truncation, record duplication, splicing of two files, opcode changes (incl. chunk nested in chunk); (b) random byte strings behind a valid magic. Every input goes through every public decode entry point: lexer under 8 option sets (seekable and not, validation, emit chunks, invalid-chunk tokens, attachment callback, MaxRecordSize/MaxDecompressedChunkSize = 64 KiB), all 14 Parse* functions on every record body and on raw slices, NewReader, Info, Messages scan + indexed x 3 orders, GetMetadata / GetAttachmentReader at every indexed offset and at hostile offsets. oracle: no panic, process alive, every entry returns within the per-evaluation CPU watchdog and a token budget, and allocates no more than its ceiling (limits configured: 64 KiB + 2 x 64 KiB + 64 MiB; otherwise 2 x 2 GiB + 64 MiB) plus 4x the bytes actually present/returned. distinct by (mutation kind, field kind, record type, value class)",
+		rule: "seeded search over hostile inputs, each executed inside an isolated batch process with RLIMIT_AS = 8 GiB that announces the input it is about to run (so a dead process identifies it): (a) field-aware mutations of spec-valid files laid out by the reference encoder - every length/offset/size/count/crc/opcode field located by the FileMap (top level and inside uncompressed chunks) set to 0, 1, v-1, v+1, 2^27, 2^28, 2^31-1, 2^31, 2^32-1, 2^63, 2^64-9, 2^64-1; truncation, record duplication, splicing of two files, opcode changes (incl. chunk nested in chunk); (b) random byte strings behind a valid magic. Every input goes through every public decode entry point: lexer under 8 option sets (seekable and not, validation, emit chunks, invalid-chunk tokens, attachment callback, MaxRecordSize/MaxDecompressedChunkSize = 64 KiB), all 14 Parse* functions on every record body and on raw slices, NewReader, Info, Messages scan + indexed x 3 orders, GetMetadata / GetAttachmentReader at every indexed offset and at hostile offsets. oracle: no panic, process alive, every entry returns within the per-evaluation CPU watchdog and a token budget, and allocates no more than its ceiling (limits configured: 64 KiB + 2 x 64 KiB + 64 MiB; otherwise 2 x 2 GiB + 64 MiB) plus 4x the bytes actually present/returned. distinct by (mutation kind, field kind, record type, value class)",
 		assumptions: []string{
 			"coverage-guided search is not available inside a seeded replayable simulator and is not claimed",
 			"decompression bombs (output large because the compressed stream says so) are allowed for: the allocation bound grows with the bytes actually returned",
@@ -49,7 +49,9 @@ type c10Extra struct {
 	Entry string `json:"entry,omitempty"` // replay: only this entry point
 }
 
-var hostile = []uint64{0, 1, 1<<31 - 1, 1 << 31, 1<<32 - 1, 1 << 63, 1<<64 - 9, 1<<64 - 1}
+// 2^27 and 2^28 lie between the configured limits (64 KiB) plus the accounting slack and the
+// 2 GiB ceiling: only there does ignoring a configured limit show as an allocation
+var hostile = []uint64{0, 1, 1 << 27, 1 << 28, 1<<31 - 1, 1 << 31, 1<<32 - 1, 1 << 63, 1<<64 - 9, 1<<64 - 1}
 
 func putField(img []byte, off int64, width int, v uint64) {
 	if off < 0 || off+int64(width) > int64(len(img)) {
@@ -538,7 +540,7 @@ func (p *c10) enumerate(sc *runner.Scenario, base []byte, st *runner.Stats, pin 
 func (p *c10) runEntries(sc *runner.Scenario, exp *c10Extra, only map[string]bool, st *runner.Stats, pin string) *runner.Violation {
 	ex := *exp
 	in := ex.Input
-	heavy := 0 // entries that allocated more than 512 MiB for this input
+	heavy := 0 // entries that allocated more than 100 MiB for this input
 	for _, e := range c10Entries() {
 		if ex.Entry != "" && ex.Entry != e.name {
 			continue
@@ -548,7 +550,7 @@ func (p *c10) runEntries(sc *runner.Scenario, exp *c10Extra, only map[string]boo
 		}
 		if ex.Entry == "" && heavy >= 2 && !e.limited && !strings.HasPrefix(e.name, "parse/") {
 			// the input makes every unlimited entry allocate a (permitted) buffer of up
-			// to 2 GiB; zeroing those dominates the run time, so after two such
+			// to 2 GiB (100 MiB and more count); zeroing those dominates the run time, so after two such
 			// entries the remaining unlimited ones are skipped for this input
 			st.Inc("skipped.entries_after_heavy_allocation")
 			continue
@@ -571,7 +573,7 @@ func (p *c10) runEntries(sc *runner.Scenario, exp *c10Extra, only map[string]boo
 			st.Inc("probe.large_allocation_over_128MiB")
 			debug.FreeOSMemory()
 		}
-		if delta > 512<<20 {
+		if delta > 100<<20 {
 			heavy++
 		}
 		mk := func(clause, format string, a ...any) *runner.Violation {
